@@ -92,6 +92,40 @@ def run_one(harness, prefix, res, interp=None, want_sample=False):
 _G = {}
 
 
+def run_one_isolated(harness, prefix, res, interp=None, want_sample=False):
+    """run one path in a forked child: whatever the path mutates in process-wide state (a pre-built heap shared by all
+    paths, statics) is discarded with the child"""
+    import pickle
+    r, w = os.pipe()
+    pid = os.fork()
+    if pid == 0:
+        code = 0
+        try:
+            os.close(r)
+            sub = Result()
+            if interp is not None: interp.fn_hits = {}; interp.model_hits = {}
+            alts = run_one(harness, prefix, sub, interp, want_sample)
+            if interp is not None: sub.fn_hits = dict(interp.fn_hits); sub.model_hits = dict(interp.model_hits)
+            with os.fdopen(w, 'wb') as f: pickle.dump((sub, alts), f)
+        except BaseException:
+            code = 1
+        finally:
+            os._exit(code)
+    os.close(w)
+    with os.fdopen(r, 'rb') as f: data = f.read()
+    os.waitpid(pid, 0)
+    if not data:
+        res.unsupported.append('isolated path died without a result'); return []
+    sub, alts = pickle.loads(data)
+    fh, mh = sub.fn_hits, sub.model_hits
+    sub.fn_hits = {}; sub.model_hits = {}
+    res.merge(sub)
+    if interp is not None:
+        for k, v in fh.items(): interp.fn_hits[k] = interp.fn_hits.get(k, 0) + v
+        for k, v in mh.items(): interp.model_hits[k] = interp.model_hits.get(k, 0) + v
+    return alts
+
+
 def _worker(args):
     prefixes, chunk, vcap = args
     harness = _G['harness']; interp = _G.get('interp')
@@ -103,21 +137,21 @@ def _worker(args):
     n = 0
     while stack and n < chunk and time.time() - t0 < 6 and len(res.violations) < vcap and not res.unsupported:
         p = stack.pop()
-        stack.extend(run_one(harness, p, res, interp, want_sample=(n % 7 == 0)))
+        stack.extend((run_one_isolated if _G.get('isolate') else run_one)(harness, p, res, interp, want_sample=(n % 7 == 0)))
         n += 1
     if interp is not None:
         res.fn_hits = dict(interp.fn_hits); res.model_hits = dict(interp.model_hits)
     return res, stack
 
 
-def explore(harness, interp=None, workers=None, time_cap=None, vcap=20, chunk=64, max_paths=None, verbose=False, classify=None):
+def explore(harness, interp=None, workers=None, time_cap=None, vcap=20, chunk=64, max_paths=None, verbose=False, classify=None, isolate=False):
     """explore all paths of `harness`.  Returns Result."""
     sys.setrecursionlimit(20000)
     workers = workers or int(os.environ.get('MIRSYM_WORKERS', str(min(16, os.cpu_count() or 1))))
     total = Result()
     t0 = time.time()
     work = [[]]
-    _G['classify'] = classify
+    _G['classify'] = classify; _G['isolate'] = isolate
     if workers <= 1:
         if interp is not None:
             interp.fn_hits = {}; interp.model_hits = {}
@@ -127,7 +161,7 @@ def explore(harness, interp=None, workers=None, time_cap=None, vcap=20, chunk=64
             if len(total.violations) >= vcap or total.unsupported: break
             if max_paths and total.paths >= max_paths: break
             p = work.pop()
-            work.extend(run_one(harness, p, total, interp, want_sample=(n % 7 == 0)))
+            work.extend((run_one_isolated if isolate else run_one)(harness, p, total, interp, want_sample=(n % 7 == 0)))
             n += 1
         if interp is not None:
             total.fn_hits = dict(interp.fn_hits); total.model_hits = dict(interp.model_hits)
